@@ -29,7 +29,8 @@ From Coq Require Import List NArith ZArith Bool Lia.
 From Coq Require Import ZifyN ZifyNat ZifyBool.
 From Verif Require Import Crash.Model Crash.ProofsStore Crash.ProofsInv Crash.ProofsImport Crash.ProofsCrash
   Crash.ProofsEqv Crash.ProofsShape Crash.ProofsResumeAll Crash.ProofsFinalized Crash.ProofsQuality.
-From Verif Require Bft.Tree Bft.Model Bft.ProofsTally Bft.ProofsChain Bft.ProofsNode Bft.ProofsOrder.
+From Verif Require Bft.Tree Bft.Model Bft.ProofsTally Bft.ProofsChain Bft.ProofsNode Bft.ProofsOrder Bft.ProofsMonotone
+  Bft.ProofsSafety Bft.ProofsOrder2 Bft.ProofsOrder3.
 Import ListNotations.
 Open Scope N_scope.
 
@@ -39,6 +40,9 @@ Module BY := Verif.Bft.ProofsTally.
 Module BC := Verif.Bft.ProofsChain.
 Module BN := Verif.Bft.ProofsNode.
 Module BO := Verif.Bft.ProofsOrder.
+Module BMo := Verif.Bft.ProofsMonotone.
+Module BS := Verif.Bft.ProofsSafety.
+Module BO3 := Verif.Bft.ProofsOrder3.
 
 (* ---------------------------------------------------------------- results of the two models side by side *)
 Inductive rel_res {A B} (R : A -> B -> Prop) : option A -> BM.res B -> Prop :=
@@ -776,6 +780,135 @@ Proof.
            rewrite A1, A2. exact Hfl.
         -- change (tr (b_id b) <> tr (s_parent sm)). intros E. apply (tr_inj _ _ Hdi Hdps) in E.
            rewrite <- E in Hps. rewrite Hps in Es. discriminate.
+Qed.
+
+(* ---------------------------------------------------------------- restart *)
+(* NewRepository + NewEngine on a store no import of which was cut (Inv2: every stored store point has its quality record,
+   every head entry names a stored block): the F6 repair finds nothing to do, the store is unchanged, and what the node
+   holds in memory afterwards (best, finalized, empty casts / Justified() cache) is Bft.Model.restart of the abstract node.
+   For a crash image the repair writes; that case is covered through resume_converges (resume_refines below). *)
+Lemma restart_refines s nd : refines s nd -> refines s (BM.restart nd).
+Proof. intros [V Hb F]. constructor; assumption. Qed.
+
+Theorem restart_sim s nd : wf_cfg c -> refines s nd -> Qinv c s -> Hinv s ->
+  exists best, restart c true s = Some (s, best, finalized c s) /\
+    refines s (BM.restart nd) /\ BM.n_best (BM.restart nd) = tr best /\
+    BM.e_fin (BM.n_eng (BM.restart nd)) = tr (finalized c s).
+Proof.
+  intros Hc Rf Q H. pose proof Rf as [V (best & Hb & Eb) F].
+  destruct (restart_shape c s Hc (v_inv _ _ _ V)) as (best' & Hb' & Er).
+  rewrite Hb in Hb'. inversion Hb'; subst best'. rewrite (restart_store_noop c s Q H) in Er.
+  exists best. split; [exact Er|]. split; [apply restart_refines; exact Rf|]. split; [exact Eb | exact F].
+Qed.
+
+(* ---------------------------------------------------------------- whole histories *)
+Fixpoint hist_ok (s : store) (nd : BM.node) (l : list blk) : Prop :=
+  match l with
+  | [] => True
+  | b :: t => blk_ok s nd b /\ hist_ok (run1 c s b) (fst (BM.import true bc nd (ablk b))) t
+  end.
+
+(* the finalized block after each import of a history, on the crash side *)
+Fixpoint cfin_trace (s : store) (l : list blk) : list N :=
+  match l with [] => [] | b :: t => finalized c (run1 c s b) :: cfin_trace (run1 c s b) t end.
+
+Lemma HLb : wf_cfg c -> 0 < BM.c_L bc.
+Proof. intros [_ H]. rewrite HcL. exact H. Qed.
+
+(* what is carried along a history: the simulation relation, the coupling, and Bft's own invariants of the abstract node *)
+Record sim (s : store) (nd : BM.node) : Prop := mkSim {
+  sim_ref : refines s nd;
+  sim_flags : flags_ok s nd;
+  sim_inv : BN.inv bc nd;
+  sim_fin : BMo.fin_ok nd }.
+
+Theorem import_sim_step s nd b : wf_cfg c -> sim s nd -> blk_ok s nd b ->
+  sim (run1 c s b) (fst (BM.import true bc nd (ablk b))).
+Proof.
+  intros Hc [Rf Hfl Hi Hfo] Hb. destruct (import_sim s nd b Hc Rf Hfl Hb) as (Rf' & Hfl' & _ & Hvc).
+  constructor; [exact Rf' | exact Hfl' | apply (BN.import_inv bc (HLb Hc)); assumption |].
+  exact (proj1 (proj2 (BMo.import_monotone bc (HLb Hc) true nd (ablk b) Hi Hfo Hvc))).
+Qed.
+
+Theorem run_sim l : forall s nd, wf_cfg c -> sim s nd -> hist_ok s nd l ->
+  sim (run c s l) (BN.import_all bc true nd (map ablk l)).
+Proof.
+  induction l as [|b t IH]; intros s nd Hc S H; [exact S|].
+  cbn [run fold_left map BN.import_all]. destruct H as [Hb Ht].
+  apply IH; [exact Hc | apply import_sim_step; assumption | exact Ht].
+Qed.
+
+(* C03's single-node clause along the history: every finalized value of the abstract node has its predecessor on its chain,
+   and these values are the translated finalized blocks of the crash model's stores *)
+Theorem run_fin_trace l : forall s nd, wf_cfg c -> sim s nd -> hist_ok s nd l ->
+  BMo.monotone_from (tr (finalized c s)) (BMo.fin_trace bc true nd (map ablk l)) /\
+  map snd (BMo.fin_trace bc true nd (map ablk l)) = map tr (cfin_trace s l).
+Proof.
+  induction l as [|b t IH]; intros s nd Hc S H; [split; [exact I | reflexivity]|].
+  destruct H as [Hb Ht]. pose proof (import_sim_step s nd b Hc S Hb) as S'.
+  destruct S as [Rf Hfl Hi Hfo]. destruct (import_sim s nd b Hc Rf Hfl Hb) as (Rf' & _ & _ & Hvc).
+  destruct (BMo.import_monotone bc (HLb Hc) true nd (ablk b) Hi Hfo Hvc) as [H1 _].
+  destruct (IH _ _ Hc S' Ht) as [M E].
+  cbn [map BMo.fin_trace BMo.monotone_from cfin_trace snd]. cbv zeta in H1.
+  rewrite (rf_fin _ _ Rf') in *. rewrite (rf_fin _ _ Rf) in H1. split; [split; assumption|]. f_equal. exact E.
+Qed.
+
+(* ---------------------------------------------------------------- genesis *)
+Lemma genesis_sim g : wf_cfg c -> c_g c = b_id g -> b_skeep g = [] -> b_ikeep g = [] ->
+  b_just g = false -> b_comm g = false -> D (b_id g) ->
+  sim (genesis_store g) (BM.init_node (ablk g) master).
+Proof.
+  intros Hc Hg Hk Hi Hj Hcm Hd. pose proof Hc as [Hn0 HL]. rewrite Hg in Hn0.
+  assert (I : Inv c (genesis_store g)).
+  { destruct c as [L gid]. cbn in Hg. subst gid. apply genesis_inv; assumption. }
+  assert (E : genesis_store g = apply_writes [] (pre_writes [] g true)) by reflexivity.
+  assert (S : forall i, get_summary (genesis_store g) i = if N.eq_dec i (b_id g) then Some (summary_of g (conf_of [] g)) else None).
+  { intro i. rewrite E, s3_summary. reflexivity. }
+  assert (Q : forall k, (exists i, k = KQuality i) \/ k = KFinalized -> get (genesis_store g) k = None).
+  { intros k Hk'. rewrite E, s3_quality by exact Hk'. reflexivity. }
+  assert (HnB : BT.b_num (ablk g) = 0) by (unfold BT.b_num; cbn; rewrite (tr_num _ Hd); exact Hn0).
+  assert (F : finalized c (genesis_store g) = b_id g).
+  { unfold finalized, get_id. rewrite Q by auto. exact Hg. }
+  constructor.
+  - constructor; cbn [BM.init_node BM.n_repo BM.n_eng BM.n_best BM.e_qs BM.e_fin].
+    + constructor.
+      * intros i Hdi. unfold BT.find_blk. cbn [find]. change (BT.b_id (ablk g)) with (tr (b_id g)).
+        rewrite (tr_eqb _ _ Hd Hdi), S. destruct (N.eq_dec i (b_id g)) as [->|Hne].
+        -- rewrite N.eqb_refl. reflexivity.
+        -- assert (E1 : (b_id g =? i) = false) by (apply N.eqb_neq; congruence). rewrite E1. reflexivity.
+      * intros x [<-|[]]. exists (b_id g), (summary_of g (conf_of [] g)). rewrite S.
+        destruct (N.eq_dec (b_id g) (b_id g)); [|congruence]. split; reflexivity.
+      * intros i _. unfold get_quality. rewrite Q by eauto. reflexivity.
+      * cbn. repeat split; try reflexivity. exact HnB.
+      * exact I.
+      * intros i H. unfold stored in H. rewrite S in H. destruct (N.eq_dec i (b_id g)) as [->|]; [exact Hd | discriminate].
+    + exists (b_id g). split; [|reflexivity]. rewrite E, s3_eq.
+      fold (get_id (apply_batch (apply_writes [] (state_batches g (conf_of [] g) ++ [index_batch g (conf_of [] g)]))
+                      (block_bulk g (conf_of [] g) true)) KBest).
+      rewrite bulk_best. reflexivity.
+    + rewrite F. reflexivity.
+  - intros i sm Ei. rewrite S in Ei. destruct (N.eq_dec i (b_id g)) as [->|]; [|discriminate]. inversion Ei; subst sm.
+    cbv zeta. rewrite asum_summary_of. cbn [summary_of s_just s_comm]. unfold BM.compute_state.
+    rewrite state_num0 by exact HnB. cbn. split; assumption.
+  - apply BN.init_inv. exact HnB.
+  - apply BMo.init_fin_ok.
+Qed.
+
+(* ---------------------------------------------------------------- crash, restart, resume *)
+(* the node resumed after a crash at ANY cut of ANY import of the history refines the abstract node that imported the same
+   blocks without interruption (Crash's resume_converges gives a store equivalent to the uninterrupted one; the relation only
+   reads the store through get) *)
+Theorem resume_sim s0 nd0 hist k i :
+  wf_cfg2 c -> Inv2 c s0 -> wf_hist c s0 hist -> cut_in_import c s0 hist k i ->
+  sim s0 nd0 -> hist_ok s0 nd0 hist ->
+  exists r, resume c true (crash c s0 hist k) (skipn i hist) = Some r /\
+            sim r (BN.import_all bc true nd0 (map ablk hist)).
+Proof.
+  intros Hc2 I2 Hw Hcut S0 Hh. pose proof Hc2 as [Hc _].
+  destruct (resume_converges c s0 hist k i Hc2 I2 Hw Hcut) as (r & Hr & He).
+  exists r. split; [exact Hr|]. apply eqv_sym in He.
+  destruct (run_sim hist s0 nd0 Hc S0 Hh) as [Rf Hfl Hi Hfo].
+  constructor; [eapply eqv_refines; eauto | eapply eqv_flags_ok; eauto | exact Hi | exact Hfo].
 Qed.
 
 End Bridge.
